@@ -19,7 +19,7 @@ Sil == l' = l
 
 TS3 == S3 /\ (IF got THEN (IF camFailed' /\ ~camFailed THEN Obs1("CamFail") ELSE Obs1("CamFrame")) ELSE Sil)
 TS7 == S7 /\ (IF camRunning THEN Obs1("CamStop") ELSE Sil)
-TK3 == K3 /\ (IF slice > 0 THEN (IF storFailed' /\ ~storFailed THEN Obs1("StorFail") ELSE ObsN("Append", slice)) ELSE Sil)
+TK3 == K3 /\ (IF slice > 0 /\ old > 0 THEN (IF storFailed' /\ ~storFailed THEN Obs1("StorFail") ELSE ObsN("Append", old)) ELSE Sil)
 TKG == KG /\ (IF slice > 0 /\ storRunning THEN (IF storFailed' /\ ~storFailed THEN Obs1("StorFail") ELSE ObsN("Append", slice)) ELSE Sil)
 TKS == KS /\ Obs1("StorStop")
 TS8 == S8 /\ Obs1("ExitS")
